@@ -3,6 +3,7 @@ package c13
 import (
 	"fmt"
 	"reflect"
+	"sort"
 	"strconv"
 	"strings"
 
@@ -68,6 +69,8 @@ type violation struct {
 }
 
 type env struct {
+	held    map[string]string // holder variable → JS path it was taken from
+	heldPtr map[string]bool   // … and whether the location is of pointer type
 	c       *core.Ctx
 	st      *core.Stats
 	r       *goja.Runtime
@@ -104,7 +107,7 @@ func mkSubject(seed uint64, maxDepth int) (*tnode, reflect.Value) {
 		}
 	}
 	p := reflect.New(t.T)
-	fillValue(r, t, p.Elem(), 3)
+	fill(r, t, p.Elem(), 3, true)
 	return t, p
 }
 
@@ -385,7 +388,12 @@ func (e *env) genOp(r *core.Rng, root reflect.Value) opRec {
 			if !ok {
 				continue
 			}
-			return opRec{Kind: "hold", JS: holder() + " = " + l.js}
+			h := holder()
+			if e.heldPtr == nil {
+				e.heldPtr = map[string]bool{}
+			}
+			e.heldPtr[h] = l.t.Kind() == reflect.Ptr
+			return opRec{Kind: "hold", JS: h + " = " + l.js, Src: l.js}
 		case 2: // Go-side write (leaf values, map entries, pointer targets) — in place, never re-slicing (see DESIGN: Go-side
 			// reallocation of a slice is invisible to element wrappers handed out earlier, which the doc does not promise to track)
 			if e.byVal && root.Kind() != reflect.Map && root.Kind() != reflect.Slice {
@@ -397,6 +405,10 @@ func (e *env) genOp(r *core.Rng, root reflect.Value) opRec {
 				}
 				switch l.t.Kind() {
 				case reflect.Slice, reflect.Func:
+					return false
+				}
+				// a Go-side replacement of an embedded pointer is not "in place" for the fields promoted through it
+				if last := l.steps[len(l.steps)-1]; last.anon && l.t.Kind() == reflect.Ptr || containsEmbeddedPtr(l.t) {
 					return false
 				}
 				return !e.writeExcluded(l, nil)
@@ -437,6 +449,9 @@ func (e *env) genOp(r *core.Rng, root reflect.Value) opRec {
 				continue
 			}
 			d := derefAll(l.v)
+			if derefIsNilMap(d) && !fixedNilMapWrite() {
+				continue // on numeric-keyed maps even "__proto__" is a key: a write to a nil map (known finding C13-nil-map-write)
+			}
 			switch r.Intn(8) {
 			case 0:
 				return opRec{Kind: "accessor", JS: "Object.defineProperty(" + l.js + ", " + e.someKey(r, d) + ", {get: function(){ return 1 }})"}
@@ -450,6 +465,10 @@ func (e *env) genOp(r *core.Rng, root reflect.Value) opRec {
 			case 3:
 				return opRec{Kind: "preventExtensions", JS: "Object.preventExtensions(" + l.js + ")"}
 			case 4:
+				if d.Kind() == reflect.Map && (d.Type().Key().Kind() == reflect.Float32 || d.Type().Key().Kind() == reflect.Float64) {
+					// once the prototype is gone "__proto__" is an ordinary name, i.e. the NaN key of a float-keyed map
+					return opRec{Kind: "setproto", JS: "Object.setPrototypeOf(" + l.js + ", null)"}
+				}
 				return opRec{Kind: "setproto", JS: core.Pick(r, []string{l.js + ".__proto__ = null", "Object.setPrototypeOf(" + l.js + ", {})", l.js + ".__proto__ = Array.prototype", l.js + ".__proto__ = 5"})}
 			case 5:
 				return opRec{Kind: "symbol", JS: "var s = Symbol('q'); " + l.js + "[s] = 1; if (" + l.js + "[s] !== 1 && typeof " + l.js + " === 'object' && " + l.js + " !== null) throw new Error('symbol lost')"}
@@ -473,7 +492,15 @@ func (e *env) genOp(r *core.Rng, root reflect.Value) opRec {
 			et := d.Type().Elem()
 			if d.Kind() == reflect.Array && !fixedArrayOOB() {
 				// growing writes on Go arrays panic (known finding C13-array-oob-write): only in-range methods
-				return opRec{Kind: "arraymeth", JS: l.js + core.Pick(r, []string{".reverse()", ".sort()", ".fill(null, 0, 1)", ".copyWithin(0, 1)", ".pop()", ".shift()", ".length = 0"})}
+				meths := []string{".reverse()", ".sort()", ".fill(null, 0, 1)", ".copyWithin(0, 1)", ".pop()", ".shift()", ".length = 0"}
+				if !fixedRebind() && nestedContainer(et) {
+					meths = []string{".reverse()", ".fill(null, 0, 1)", ".copyWithin(0, 1)", ".pop()"} // (sort re-binds wrappers: see below)
+				}
+				if !fixedPtrSlot() && et.Kind() == reflect.Ptr {
+					meths = meths[1:] // reverse duplicates pointer elements (known finding C13-ptr-element-slot-alias)
+				}
+				m := core.Pick(r, meths)
+				return opRec{Kind: "arraymeth", JS: l.js + m, Path: l.js, LitKind: methTag(m)}
 			}
 			lits := func(n int) string {
 				var s []string
@@ -490,8 +517,11 @@ func (e *env) genOp(r *core.Rng, root reflect.Value) opRec {
 				// (known finding C13-rebind-incomplete): only non-growing methods until that is fixed
 				pickOp = []int{1, 2, 7, 10, 10, 1, 2, 7, 10, 10, 1, 2}[pickOp]
 			}
-			if !fixedRebind() && pickOp >= 5 && pickOp <= 6 && hasPtrMethods(et) {
-				pickOp = 7 // sort re-binds element wrappers and loses their pointer-ness (same finding): Stringer/error toString panics
+			if !fixedRebind() && pickOp >= 5 && pickOp <= 6 && (hasPtrMethods(et) || nestedContainer(et)) {
+				pickOp = 7 // sort re-binds element wrappers: they lose their pointer-ness and nested wrappers are not re-bound (same finding)
+			}
+			if !fixedPtrSlot() && pickOp == 7 && et.Kind() == reflect.Ptr {
+				pickOp = 1 // reverse duplicates pointer elements (known finding C13-ptr-element-slot-alias)
 			}
 			switch pickOp {
 			case 0:
@@ -520,7 +550,7 @@ func (e *env) genOp(r *core.Rng, root reflect.Value) opRec {
 			default:
 				js = ".fill(" + lits(1) + ")"
 			}
-			return opRec{Kind: "arraymeth", JS: l.js + js}
+			return opRec{Kind: "arraymeth", JS: l.js + js, Path: l.js, LitKind: methTag(js)}
 		case 7: // read-only object protocol: in / keys / for-in / JSON / spread / entries
 			l, ok := pick(isObj)
 			if !ok {
@@ -606,7 +636,18 @@ func (e *env) genOp(r *core.Rng, root reflect.Value) opRec {
 				continue
 			}
 			if r.Chance(1, 3) {
-				return opRec{Kind: "set-held", JS: l.js + " = " + holder()}
+				h := holder()
+				hp, ok := e.held[h]
+				if !ok || strings.HasPrefix(l.js, hp) || strings.HasPrefix(hp, l.js) {
+					continue // writing a container into itself: outside the documented domain
+				}
+				if e.heldPtr[h] && !fixedPtrSlot() {
+					continue // the wrapper of a pointer-typed slot exports the slot's current content (known finding C13-ptr-element-slot-alias)
+				}
+				if hl, ok := e.resolve(root, hp); !fixedRebind() && (!ok || hl.t != l.t) {
+					continue // a failing element conversion leaves the re-attached wrapper with a stale element cache (C13-rebind-incomplete)
+				}
+				return opRec{Kind: "set-held", JS: l.js + " = " + h, Src: h + "=" + hp}
 			}
 			op := opRec{Kind: "set-wrapper", JS: l.js + " = " + src.js, Path: l.js, Src: src.js, LitKind: "wrapper"}
 			if l.addr && src.js != l.js && !strings.HasPrefix(src.js, l.js) && !strings.HasPrefix(l.js, src.js) {
@@ -623,6 +664,9 @@ func (e *env) genOp(r *core.Rng, root reflect.Value) opRec {
 			}
 			d := derefAll(l.v)
 			key := core.Pick(r, []string{"-1", `"-0"`, "1.5", `"01"`, `"zzz"`, `"length"`, `"constructor"`, `"toString"`, `"valueOf"`, "4294967296", `"__proto__"`, "Symbol.iterator", "Symbol.toPrimitive"})
+			if strings.HasPrefix(key, "Symbol.") && !fixedCacheOnThrow() {
+				key = `"zzz"` // a broken @@iterator / @@toPrimitive makes later conversions throw mid-write (known finding C13-cache-detached-on-throw)
+			}
 			if (d.Kind() == reflect.Slice) && key == "4294967296" {
 				continue // growing a Go slice to a huge index allocates by construction (RECON): excluded
 			}
@@ -632,8 +676,13 @@ func (e *env) genOp(r *core.Rng, root reflect.Value) opRec {
 			if d.Kind() == reflect.Map && derefIsNilMap(d) && !fixedNilMapWrite() {
 				continue
 			}
-			if d.Kind() == reflect.Map && (d.Type().Key().Kind() == reflect.Float32 || d.Type().Key().Kind() == reflect.Float64) {
-				key = core.Pick(r, []string{"-1", `"-0"`, "1.5", `"01"`, "4294967296"}) // non-numeric names would become the NaN key
+			if d.Kind() == reflect.Map {
+				switch d.Type().Key().Kind() {
+				case reflect.Float32, reflect.Float64:
+					key = core.Pick(r, []string{"-1", `"-0"`, "1.5", `"01"`, "4294967296"}) // non-numeric names would become the NaN key
+				case reflect.Uint, reflect.Uint64, reflect.Int, reflect.Int64:
+					key = core.Pick(r, []string{`"-0"`, "1.5", `"01"`, `"zzz"`, "7"}) // keys beyond 2^53 do not survive the string round trip
+				}
 			}
 			if r.Bool() {
 				return opRec{Kind: "oddkey-read", JS: "return typeof " + l.js + "[" + key + "]"}
@@ -668,6 +717,47 @@ func hasPtrMethods(t reflect.Type) bool {
 	return t.Kind() != reflect.Ptr && t.Kind() != reflect.Interface && reflect.PointerTo(t).NumMethod() > t.NumMethod()
 }
 
+func methTag(js string) string {
+	for _, m := range []string{"reverse", "pop", "shift", "sort(function", "sort()"} {
+		if strings.HasPrefix(js, "."+m) {
+			return strings.TrimSuffix(strings.TrimSuffix(m, "()"), "(function")
+		}
+	}
+	return ""
+}
+
+// elemViews: the views of the elements of the slice/array at path.
+func (e *env) elemViews(path string) ([]string, bool) {
+	root, v := e.goRoot()
+	if v != nil || !root.IsValid() {
+		return nil, false
+	}
+	l, ok := e.resolve(root, path)
+	if !ok {
+		return nil, false
+	}
+	for x := l.v; x.IsValid() && (x.Kind() == reflect.Ptr || x.Kind() == reflect.Interface) && !x.IsNil(); x = x.Elem() {
+		if x.Kind() == reflect.Interface && x.Elem().Kind() != reflect.Ptr {
+			return nil, false // a slice/array held by value in an interface{} is handed out as a copy (doc caveat 3)
+		}
+	}
+	d := derefAll(l.v)
+	if !d.IsValid() || d.Kind() != reflect.Slice && d.Kind() != reflect.Array || !l.addr {
+		return nil, false // (copies: doc caveat 3)
+	}
+	switch et := d.Type().Elem(); et.Kind() {
+	case reflect.Int, reflect.Int64, reflect.Uint, reflect.Uint64, reflect.Interface:
+		if unnamed(et) || et.Kind() == reflect.Interface {
+			return nil, false // elements travel through JS Numbers: 64-bit integers beyond 2^53 do not survive
+		}
+	}
+	out := make([]string, d.Len())
+	for i := range out {
+		out[i] = goView(d.Index(i), e.mapper, 0)
+	}
+	return out, true
+}
+
 func derefIsNilPtr(v reflect.Value) bool {
 	d := derefAll(v)
 	return !d.IsValid() || (d.Kind() == reflect.Ptr || d.Kind() == reflect.Interface)
@@ -691,8 +781,24 @@ func (e *env) writeExcluded(l loc, all []loc) bool {
 		return true
 	}
 	// a nil embedded pointer makes every promoted-field access panic (known finding C13-nil-embedded-ptr)
-	if last := l.steps[len(l.steps)-1]; last.anon && l.t.Kind() == reflect.Ptr && !fixedNilEmbedded() {
+	if last := l.steps[len(l.steps)-1]; last.anon && l.t.Kind() == reflect.Ptr && !(fixedNilEmbedded() && fixedEmbCache()) {
 		return true
+	}
+	return false
+}
+
+// containsEmbeddedPtr: values of t hold an embedded pointer somewhere by value (replacing such a value replaces the pointer).
+func containsEmbeddedPtr(t reflect.Type) bool {
+	switch t.Kind() {
+	case reflect.Struct:
+		for i := 0; i < t.NumField(); i++ {
+			f := t.Field(i)
+			if f.Anonymous && f.Type.Kind() == reflect.Ptr || containsEmbeddedPtr(f.Type) {
+				return true
+			}
+		}
+	case reflect.Array:
+		return containsEmbeddedPtr(t.Elem())
 	}
 	return false
 }
@@ -725,6 +831,9 @@ func (e *env) someKey(r *core.Rng, d reflect.Value) string {
 			keys := d.MapKeys()
 			sortKeys(keys)
 			return jsStr(fmt.Sprintf("%v", keys[r.Intn(len(keys))].Interface()))
+		}
+		if k := d.Type().Key().Kind(); k == reflect.Float32 || k == reflect.Float64 {
+			return core.Pick(r, []string{`"1"`, `"2.5"`, "7"}) // other names would be the NaN key
 		}
 		return core.Pick(r, []string{`"a"`, `"k1"`, `"1"`, `"nope"`})
 	}
@@ -761,6 +870,18 @@ func (e *env) execOp(i int, op *opRec) *violation {
 	if op.Kind == "goset" {
 		return e.execGoSet(what, op)
 	}
+	if e.held == nil {
+		e.held = map[string]string{}
+	}
+	switch op.Kind {
+	case "hold":
+		e.held[op.JS[:2]] = op.Src
+	case "set-held":
+		// (replay of a shortened sequence: the holder must still hold what it held when the op was generated)
+		if i := strings.Index(op.Src, "="); i < 0 || e.held[op.Src[:i]] != op.Src[i+1:] {
+			return nil
+		}
+	}
 	if op.Kind == "set-wrapper" && op.Known {
 		// expected: the location shows what the source wrapper showed before the write
 		op.View = ""
@@ -772,6 +893,11 @@ func (e *env) execOp(i int, op *opRec) *violation {
 		if op.View == "" {
 			op.Known = false
 		}
+	}
+	var before []string
+	permLaw := false
+	if op.Kind == "arraymeth" && op.LitKind != "" {
+		before, permLaw = e.elemViews(op.Path)
 	}
 	o := e.run("(function(){ 'use strict'; " + op.JS + "\n})()")
 	v, ok := e.judgeOutcome(what, o)
@@ -790,6 +916,34 @@ func (e *env) execOp(i int, op *opRec) *violation {
 		e.st.Inc("op-threw:" + op.Kind + ":" + threw)
 	} else {
 		e.st.Inc("op-ok:" + op.Kind)
+	}
+	if permLaw && threw == "" {
+		if after, ok := e.elemViews(op.Path); ok {
+			var want []string
+			switch op.LitKind {
+			case "reverse":
+				for i := len(before) - 1; i >= 0; i-- {
+					want = append(want, before[i])
+				}
+			case "pop":
+				if len(before) > 0 {
+					want = before[:len(before)-1]
+				}
+			case "shift":
+				if len(before) > 0 {
+					want = before[1:]
+				}
+			case "sort":
+				want = append([]string{}, before...)
+				sort.Strings(want)
+				after = append([]string{}, after...)
+				sort.Strings(after)
+			}
+			e.st.Inc("law:array_method_result_checked")
+			if strings.Join(after, "\x01") != strings.Join(want, "\x01") {
+				return &violation{"array-method", fmt.Sprintf("%s: elements before %v, after %v, Array.prototype.%s gives %v", what, before, after, op.LitKind, want), "array-method:" + op.LitKind}
+			}
+		}
 	}
 	switch op.Kind {
 	case "set", "define", "set-wrapper":
